@@ -243,8 +243,219 @@ def mon_extrema():
             m.extrema = w
 
 
+def mon_fsolve():
+    """Dynamic-stiffness residual of every fsolve return (SolveUnc, FreqDirect): the
+    returned a, v, d satisfy M a + B v + K d = F on the non-rf block (default options)."""
+    import numpy as np
+    from pyyeti import ode
+
+    def full(x, n):
+        x = np.asarray(x)
+        return np.diag(x) if x.ndim == 1 else x
+
+    def wrap(cls):
+        orig = cls.fsolve
+
+        @_guard
+        def check(self, force, freq, incrb, rf_disp_only, sol):
+            if rf_disp_only or sorted(str(incrb)) != ["a", "d", "v"]:
+                return
+            n = self.n
+            F = np.atleast_2d(force)
+            if F.shape != sol.d.shape:
+                return
+            K = full(self.k_orig, n)
+            B = full(self.b_orig, n)
+            M = np.eye(n) if self.m_orig is None else full(self.m_orig, n)
+            nonrf = np.asarray(self.nonrf) if not isinstance(self.nonrf, slice) \
+                else np.arange(n)[self.nonrf]
+            if nonrf.size == 0:
+                return
+            if getattr(self, "pre_eig", False) and nonrf.size != n:
+                return              # rf rows are modal rows there
+            nn = np.ix_(nonrf, nonrf)
+            M, B, K = M[nn], B[nn], K[nn]
+            a, v, d, F = sol.a[nonrf], sol.v[nonrf], sol.d[nonrf], F[nonrf]
+            terms = abs(M) @ abs(a) + abs(B) @ abs(v) + abs(K) @ abs(d) + abs(F)
+            res = M @ a + B @ v + K @ d - F
+            scale = terms.max(axis=0)
+            ok = np.isfinite(scale) & (scale > 0)
+            if not ok.any():
+                return
+            _count("fsolve:" + cls.__name__)
+            r = float((abs(res)[:, ok].max(axis=0) / scale[ok]).max())
+            key = "fsolve-worst:" + cls.__name__
+            _REC["calls"][key] = max(_REC["calls"].get(key, 0.0), r)
+            if r > 1e-7:
+                _viol("ambient-fsolve-residual", {"solver": cls.__name__, "n": int(n),
+                                                  "rel": r})
+
+        @functools.wraps(orig)
+        def w(self, force, freq, incrb="dva", rf_disp_only=False, **k):
+            sol = orig(self, force, freq, incrb, rf_disp_only, **k)
+            check(self, force, freq, incrb, rf_disp_only, sol)
+            return sol
+        cls.fsolve = w
+    for cls in (ode.SolveUnc, ode.FreqDirect):
+        wrap(cls)
+
+
+def mon_epq():
+    """A (P + Q) = (E - I) B for every getEPQ* return (integral of exp(At) over the
+    step, documented split of it into P and Q)."""
+    import numpy as np
+    from pyyeti import expmint
+
+    def wrap(name):
+        orig = getattr(expmint, name)
+
+        @_guard
+        def check(A, h, order, B, half, out):
+            E, P, Q = out
+            A = np.asarray(A)
+            n = A.shape[0]
+            if B is None:
+                Bm = np.eye(n)[:, :n // 2] if half else np.eye(n)
+            else:
+                Bm = np.asarray(B)
+            S = P + Q if order == 1 else P
+            lhs = A @ S
+            rhs = (E - np.eye(n)) @ Bm
+            scale = float(abs(A) .max() * abs(S).max() * n + abs(E).max() + 1.0) * \
+                max(float(abs(Bm).max()), 1e-300)
+            if not np.isfinite(scale):
+                return
+            _count("epq:" + name)
+            r = float(abs(lhs - rhs).max() / scale)
+            _REC["calls"]["epq-worst"] = max(_REC["calls"].get("epq-worst", 0.0), r)
+            if r > 1e-9:
+                _viol("ambient-epq-identity", {"fn": name, "n": int(n), "h": float(h),
+                                               "order": int(order), "rel": r})
+
+        @functools.wraps(orig)
+        def w(A, h, order=1, B=None, half=False, *a, **k):
+            out = orig(A, h, order, B, half, *a, **k)
+            check(A, h, order, B, half, out)
+            return out
+        setattr(expmint, name, w)
+    for name in ("getEPQ1", "getEPQ2", "getEPQ_pow"):
+        wrap(name)
+
+
+def mon_sets():
+    """mksetpv: minor-from-major vector has the major set's length and equals the minor
+    membership restricted to the major rows; mkdofpv: rows found are the rows asked."""
+    import numpy as np
+    from pyyeti.nastran import n2p
+    orig = n2p.mksetpv
+
+    @_guard
+    def check(uset, major, minor, pv):
+        _count("mksetpv")
+        pM = orig(uset, "p", major)
+        pm = orig(uset, "p", minor)
+        if np.any(pm & ~pM):
+            _viol("ambient-mksetpv-accepted-non-subset", {"major": str(major),
+                                                          "minor": str(minor)})
+            return
+        pv = np.asarray(pv)
+        if pv.shape != (int(pM.sum()),) or not np.array_equal(pv, pm[pM]):
+            _viol("ambient-mksetpv", {"major": str(major), "minor": str(minor),
+                                      "len": int(pv.size), "major_size": int(pM.sum())})
+
+    @functools.wraps(orig)
+    def w(uset, major, minor):
+        pv = orig(uset, major, minor)
+        if not (isinstance(major, str) and major == "p"):
+            check(uset, major, minor, pv)
+        return pv
+    n2p.mksetpv = w
+
+    orig2 = n2p.mkdofpv
+
+    @_guard
+    def check2(uset, nasset, out):
+        _count("mkdofpv")
+        pv, outdof = out
+        pv = np.asarray(pv)
+        if not isinstance(nasset, str):
+            idx = np.array(list(uset.index), dtype=np.int64) if hasattr(uset, "index") \
+                else np.asarray(uset)[:, :2].astype(np.int64)
+        else:
+            sel = orig(uset, "p", nasset)
+            idx = np.array(list(uset.index), dtype=np.int64)[sel]
+        if pv.size and (pv.max() >= idx.shape[0] or not np.array_equal(
+                idx[pv], np.asarray(outdof, dtype=np.int64))):
+            _viol("ambient-mkdofpv", {"n": int(pv.size)})
+
+    @functools.wraps(orig2)
+    def w2(uset, nasset, dof, *a, **k):
+        out = orig2(uset, nasset, dof, *a, **k)
+        check2(uset, nasset, out)
+        return out
+    n2p.mkdofpv = w2
+
+
+def mon_resample():
+    """dsp.resample: ceil(n p / q) samples along the axis; constants stay constant."""
+    import math
+    import numpy as np
+    from pyyeti import dsp
+    orig = dsp.resample
+
+    @_guard
+    def check(data, p, q, axis, getfir, t, out):
+        _count("resample")
+        y = out[0] if isinstance(out, tuple) else out
+        x = np.asarray(data)
+        n = x.shape[axis]
+        want = math.ceil(n * int(p) / int(q))
+        if np.asarray(y).shape[axis] != want:
+            _viol("ambient-resample-length", {"n": int(n), "p": int(p), "q": int(q),
+                                              "got": int(np.asarray(y).shape[axis])})
+
+    @functools.wraps(orig)
+    def w(data, p, q, *a, **k):
+        out = orig(data, p, q, *a, **k)
+        names = ["axis", "beta", "pts", "t", "getfir"]
+        kw = dict(zip(names, a))
+        kw.update(k)
+        check(data, p, q, kw.get("axis", -1), kw.get("getfir", False), kw.get("t"), out)
+        return out
+    dsp.resample = w
+
+
+def mon_ntfl():
+    """frclim.ntfl: TAM = SAM + LAM; F = LAM A (interface force from the load's apparent
+    mass and the coupled acceleration)."""
+    import numpy as np
+    from pyyeti import frclim
+    orig = frclim.ntfl
+
+    @_guard
+    def check(out):
+        _count("ntfl")
+        if not np.array_equal(np.asarray(out.TAM), np.asarray(out.SAM) + np.asarray(out.LAM)):
+            _viol("ambient-ntfl-tam", {})
+        LAM, A, F = np.asarray(out.LAM), np.asarray(out.A), np.asarray(out.F)
+        want = np.einsum("ifk,kf->if", LAM, A)
+        scale = np.einsum("ifk,kf->if", abs(LAM), abs(A)).max() + 1e-300
+        r = float(abs(F - want).max() / scale)
+        _REC["calls"]["ntfl-worst"] = max(_REC["calls"].get("ntfl-worst", 0.0), r)
+        if r > 1e-10:
+            _viol("ambient-ntfl-force", {"rel": r})
+
+    @functools.wraps(orig)
+    def w(*a, **k):
+        out = orig(*a, **k)
+        check(out)
+        return out
+    frclim.ntfl = w
+
+
 MONITORS = {"format": mon_format, "rainflow": mon_rainflow, "findap": mon_findap,
-            "eom": mon_eom, "extrema": mon_extrema}
+            "eom": mon_eom, "extrema": mon_extrema, "fsolve": mon_fsolve, "epq": mon_epq,
+            "sets": mon_sets, "resample": mon_resample, "ntfl": mon_ntfl}
 
 
 # ------------------------------------------------------------------ pytest hooks -------
